@@ -90,7 +90,7 @@ theorem run_of_ok (i : Inst) (as : List Nat) :
       have hsk' := hsk [] (routes as) (by simp [routes])
       -- no customer is free whenever the depot rule would close the depot
       have hm : env.mask i s 0 = true := by
-        simp only [env, mask, if_true, Bool.not_eq_true', Bool.and_eq_false_iff, Bool.or_eq_false_iff,
+        simp only [env, mask_eq, maskRef, if_true, Bool.not_eq_true', Bool.and_eq_false_iff, Bool.or_eq_false_iff,
           beq_eq_false_iff_ne, ne_eq]
         by_cases hcur : s.cur = 0
         · right
@@ -128,13 +128,13 @@ theorem run_of_ok (i : Inst) (as : List Nat) :
         (fun b hb => hr b (by simp [hb]))
         (fun j hj hmem => by
           have := hv j hj (by simp [hmem])
-          simp only [env, step, upd_apply]
+          simp only [env, step_eq, stepRef, upd_apply]
           have : j ≠ 0 := by omega
           simp [*])
         (fun j hj1 hj2 hvj => by
           have hne : j ≠ 0 := by omega
           have : s.vis j = false := by
-            simp only [env, step, upd_apply, hne, if_false] at hvj
+            simp only [env, step_eq, stepRef, upd_apply, hne, if_false] at hvj
             exact hvj
           have := hcov j hj1 hj2 this
           rcases List.mem_cons.mp this with h | h
@@ -152,26 +152,26 @@ theorem run_of_ok (i : Inst) (as : List Nat) :
           have h2 := hsk'.2
           simp only [routesOk, routeOk, Bool.and_eq_true, Bool.or_eq_true, List.isEmpty_iff,
             List.all_eq_true, decide_eq_true_eq] at h2
-          have htech : (env.step i s 0).tech = s.tech + 1 := by simp [env, step]
+          have htech : (env.step i s 0).tech = s.tech + 1 := by simp [env, step_eq, stepRef]
           rw [htech]
           refine ⟨?_, h2.2⟩
           rcases h2.1 with h | h
           · subst h; simp
           · exact h.2)
         (by
-          have htech : (env.step i s 0).tech = s.tech + 1 := by simp [env, step]
+          have htech : (env.step i s 0).tech = s.tech + 1 := by simp [env, step_eq, stepRef]
           have hcur : (env.step i s 0).cur = 0 := rfl
           rw [htech, hcur]
           simpa using hcan2)
       refine ⟨s', Run.cons ha hm hrun, fun j => ?_⟩
       rw [hvis j]
-      simp only [env, step, upd_apply, List.mem_cons]
+      simp only [env, step_eq, stepRef, upd_apply, List.mem_cons]
       by_cases hj : j = 0 <;> simp [hj]
     · have hva : s.vis a = false := hv a (by omega) (by simp)
       have hsk' := hsk (a :: r1) rs1 (by simp [routes, h0, h1])
       have hm : env.mask i s a = true := by
         have := hsk'.1 a (by simp)
-        simp [env, mask, h0, locOk, hva, Params.svrpMaskSkillCmp, Cmp.eval, this]
+        simp [env, mask_eq, maskRef, h0, locOk, hva, Params.svrpMaskSkillCmp, Cmp.eval, this]
       have hnotin : a ∉ as := by
         intro hmem
         have h2 := hc a (by omega)
@@ -179,19 +179,19 @@ theorem run_of_ok (i : Inst) (as : List Nat) :
         have h3 := List.count_pos_iff.mpr hmem
         simp only [beq_self_eq_true, if_true] at h2
         omega
-      have htech : (env.step i s a).tech = s.tech := by simp [env, step, h0]
+      have htech : (env.step i s a).tech = s.tech := by simp [env, step_eq, stepRef, h0]
       obtain ⟨s', hrun, hvis⟩ := ih (env.step i s a)
         (fun b hb => hr b (by simp [hb]))
         (fun j hj hmem => by
           have := hv j hj (by simp [hmem])
-          simp only [env, step, upd_apply]
+          simp only [env, step_eq, stepRef, upd_apply]
           have : j ≠ a := fun h => hnotin (h ▸ hmem)
           simp [*])
         (fun j hj1 hj2 hvj => by
           by_cases hja : j = a
-          · subst hja; simp [env, step] at hvj
+          · subst hja; simp [env, step_eq, stepRef] at hvj
           · have : s.vis j = false := by
-              simp only [env, step, upd_apply, hja, if_false] at hvj
+              simp only [env, step_eq, stepRef, upd_apply, hja, if_false] at hvj
               exact hvj
             have := hcov j hj1 hj2 this
             rcases List.mem_cons.mp this with h | h
@@ -215,7 +215,7 @@ theorem run_of_ok (i : Inst) (as : List Nat) :
           simpa [h0] using hcan2)
       refine ⟨s', Run.cons ha hm hrun, fun j => ?_⟩
       rw [hvis j]
-      simp only [env, step, upd_apply, List.mem_cons]
+      simp only [env, step_eq, stepRef, upd_apply, List.mem_cons]
       by_cases hj : j = a <;> simp [hj]
 
 /-- **C05 (SVRP).** -/
